@@ -9,7 +9,8 @@ PROP = {
              "SimpleTransfer (amounts up to 2^64-1, bounce, modes 0..255, bodies, code+data, comments 0..1000 bytes) or random cell trees, "
              "x no / own / foreign state-init: the hash and bits of the external message and the bits of the body are compared with the "
              "extracted model (signature and highload random given as oracle columns); CreateMessageBody with Sendables and every V5 message "
-             "type; VerifySignature / MessageV5VerifySignature with own key, another key, a 31-byte key, other versions, sampled single-bit "
+             "type, where the model computes the carried cells itself from the Sendable fields (amount 0..2^64-1, workchain, address, "
+             "bounce, mode, body, code+data, text comment of 0..1000 bytes as snake data) through the tlb.Message descriptor; VerifySignature / MessageV5VerifySignature with own key, another key, a 31-byte key, other versions, sampled single-bit "
              "flips, truncated / reference-dropped / random bodies (the Ed25519 verdict over the independently cut signed part is an oracle "
              "table; the checked hash is part of the compared result); Decode*/ExtractRawMessages of own, cross-version and malformed bodies; "
              "v5r1 CreateSignedMsgBodyCell with 0..4 extended actions (add / remove extension with addr_std (anycast or not), addr_none, "
@@ -35,14 +36,17 @@ PROP = {
                     "references), the signature covers them, decoding returns them in order; the message decoder is modelled for every "
                     "CommonMsgInfo constructor, MsgAddress form (anycast), init absent / by reference / inline with any StateInit incl. "
                     "library dictionaries, body by reference / inline, with a round-trip theorem (C14_envelope_roundtrip) and "
-                    "C14_any_envelope_roundtrip: a built body under ANY such envelope decodes to the requested fields and verifies. "
+                    "C14_any_envelope_roundtrip: a built body under ANY such envelope decodes to the requested fields and verifies; "
+                    "C14_transfer_roundtrip / C14_transfers_carried: each carried cell is the tlb.Message encoding (C03 descriptor codec) of "
+                    "the requested (amount, destination, bounce, body, init, mode) and decoding the cells extracted from the sent message "
+                    "yields exactly the requested transfer list. "
                     "coq/Properties/C14_gen.v re-checks limits, opcodes and the action magic "
                     "translated from today's wallet/*.go."),
     'assumptions': ["Ed25519 and the cell hash are parameters; 'no other key' / 'changed bit' hold under the stated hypotheses ideal_signature and no_second_preimage (idealisations, not proved of Ed25519/SHA-256)",
                     "highload message cells must be ordinary cell trees (the dictionary model of C05 has no exotic cells); other versions allow any cell",
                     "dictionaries inside an envelope (libraries, extra currencies) and the highload payload go through C05's ordinary-cell dictionary model: a dictionary containing an exotic cell answers Unmodelled (never generated)",
                     "MsgAddress bits are those of C03's TlbCore.addr_bits / addr_parse (law C03_msgaddress_law)",
-                    "the conversion Sendable -> internal message cell (tlb.Marshal of tlb.Message) is computed by the implementation and handed to the model as a cell (C03/C04 cover it)",
+                    "the internal message of a transfer is modelled as the C03 codec-model encoding of the tlb.Message descriptor (C14_gen: equal to the translated one); transfers = wallet.Message / SimpleTransfer fields (amount, destination, bounce, body or text comment, code+data, mode); ExtraCurrency of SimpleTransfer is not generated",
                     "V5Beta is not supported by VerifySignature (observation); MessageV5VerifySignature is the entry point used for it",
                     "the highload query id's low half is math/rand: reseeded per case and given to the model as a column"],
 }
